@@ -262,6 +262,12 @@ func C12(r *vf.Run) {
 								w.rig.loadPrim(s, v%2 == 1, g)
 								w.rig.loadAltFromPrim()
 								a0 := g.U64() >> uint(g.Intn(40))
+								if g.Intn(4) == 0 {
+									// the running total is a public 64-bit counter: any value is a start state,
+									// including those a few cycles below a power-of-two limit
+									lim := []uint64{1 << 16, 1 << 31, 1 << 32, 1 << 53, 1 << 63, 0}[g.Intn(6)]
+									a0 = lim - uint64(g.Intn(14))
+								}
 								w.rig.prim.AllCycles, w.rig.alt.AllCycles = a0, a0
 								irq := ""
 								if v%4 == 3 || (variants < 4 && g.Intn(4) == 0) {
